@@ -183,6 +183,20 @@ def sample(repo: Path, seed: int, n: int, scope="framework"):
     return out, len(sites)
 
 
+def run_group(cmd, env, timeout):
+    """run a check in its own process group; on timeout kill the whole group (the check's pool workers included) and return None"""
+    import signal
+    p = subprocess.Popen(cmd, stdout=subprocess.PIPE, stderr=subprocess.PIPE, text=True, env=env, start_new_session=True)
+    try:
+        out, err = p.communicate(timeout=timeout)
+        return subprocess.CompletedProcess(cmd, p.returncode, out, err)
+    except subprocess.TimeoutExpired:
+        try: os.killpg(p.pid, signal.SIGKILL)
+        except ProcessLookupError: pass
+        p.communicate()
+        return None
+
+
 def main():
     a = sys.argv[1:]
     opt = lambda name, default: (a[a.index(name) + 1] if name in a else default)
@@ -216,7 +230,9 @@ def main():
                     caught, broken_only = [], []
                     for i in range(1, 21):
                         pid = f"C{i:02d}"
-                        q = subprocess.run([str(verif / "check"), pid, "--tier", "quick"], capture_output=True, text=True, env=env, timeout=3000)
+                        q = run_group([str(verif / "check"), pid, "--tier", "quick"], env, 2400)
+                        if q is None:
+                            rec.setdefault("check_timeouts", []).append(pid); caught.append(pid); continue      # a check that hangs on the mutant: the mutant is at least noticed
                         if q.returncode != 0:
                             lines = [l for l in q.stdout.splitlines() if l.startswith("VIOLATION")]
                             (broken_only if lines and all("no-failing-input-found" in l for l in lines) else caught).append(pid)
